@@ -8,11 +8,14 @@
    any length, any number of elements and documents, ending at the first exception; and (Heap/WFExt.v) for the
    extended calls of Heap/More.v as well - add(block), time setters, element copy(), deepCopyTo, reassignIds,
    updateBlockFormatDurations, route tracing and the object_creation helpers (which are sequences of these calls).
-   The theorems keep the suffix _partial because one listed call, Document::deepCopy, is not covered: it sets the
-   parents of the copies directly, which needs the fact that the re-created references of the copies stay among the
-   copies; that call is covered by the differential run only.
+   Document::deepCopy sets the parents of the copies directly; that it keeps WF needs the fact that the re-created
+   references of the copies are the images of the originals' references (Heap/CopyRefs.v), which in turn needs two
+   more invariants of the source (stream/track synchronisation, C12, and disjointness of an object's referenced and
+   complementary objects); Heap/Joint.v proves the three together for every history of all calls, deepCopy included
+   (C03_invariant_all_calls).  The theorems with the suffix _partial are the earlier, narrower statements.
    The plans interpreted by the model are regenerated from src/document.cpp on every run. *)
-From Adm Require Import Heap.Exec Heap.More gen.PlansGen Heap.PlanChecks Heap.Frame Heap.WF Heap.WFExt.
+From Adm Require Import Heap.Exec Heap.More gen.PlansGen Heap.PlanChecks Heap.Frame Heap.WF Heap.WFExt Heap.Sync Heap.CopyRefs
+  Heap.Joint.
 
 Theorem C03_plans_recognised : plans_problems = [] /\ add_plan_complete gen_plans = true /\ plans_typed gen_plans = true
   /\ remove_plan_complete gen_plans = true /\ uid_rule gen_plans = true.
@@ -95,6 +98,32 @@ Proof. exact set_two_documents_rejected. Qed.
 Print Assumptions C03_set_across_documents_rejected.
 
 (* the statements are not vacuous: a history with two documents, nested references and a removal succeeds *)
+(* every history of all modelled calls, Document::deepCopy included *)
+Theorem C03_every_call_keeps_the_invariants : forall o s s' v, WF s /\ Sync s /\ ObjDisjoint s ->
+  xexec gen_plans o s = (s', inl v) -> WF s' /\ Sync s' /\ ObjDisjoint s'.
+Proof. exact (joint_step gen_plans gen_add_plan_complete gen_remove_plan_complete gen_plans_typed eq_refl). Qed.
+Print Assumptions C03_every_call_keeps_the_invariants.
+
+Theorem C03_invariant_all_calls : forall ops s', xrun_succ gen_plans ops empty_state = Some s' -> WF s'.
+Proof.
+  exact (fun ops s' H => proj1 (joint_invariant gen_plans gen_add_plan_complete gen_remove_plan_complete gen_plans_typed eq_refl
+                                  ops empty_state s' empty_G H)).
+Qed.
+Print Assumptions C03_invariant_all_calls.
+
+Example C03_history_with_deep_copy_exists :
+  match xrun_succ gen_plans
+          (map XBase [ONewDoc 1; ONew 2 KObj 0 false; ONew 3 KObj 0 false; ONew 4 KPack 1 false; ONew 5 KStream 0 false;
+                      ONew 6 KTrack 0 false; OAddRef ObjObj 2 3; OAddRef ObjPack 2 4; OAddRef StreamTrack 5 6;
+                      OAdd 1 2; OAdd 1 5]
+           ++ [XDeepCopy 1 7 20; XBase (ORemove 7 21)]) empty_state with
+  | Some s => (map (fun k => listed s 7 k) [KObj; KPack; KStream; KTrack], refs s 20 ObjObj, refs s 20 ObjPack,
+               refs s 23 StreamTrack, refs s 24 TrackStream, refs s 2 ObjObj)
+              = ([[20%positive]; [22%positive]; [23%positive]; [24%positive]], [], [22%positive], [24%positive], [23%positive], [3%positive])
+  | None => False
+  end.
+Proof. vm_compute. reflexivity. Qed.
+
 Example C03_history_exists :
   exists s', run_succ gen_plans
     [ONewDoc 1; ONewDoc 2; ONew 1 KObj 0 false; ONew 2 KObj 0 false; ONew 3 KPack 3 false; ONew 4 KChan 3 false;
